@@ -18,14 +18,14 @@ LEVEL = {
  "C02": ("proof", "§6 C02", "SCS bounds, partition identity, runoff bounds, bund-removal lemma; tie on rainfall_partition/irrigation/infiltration; row oracle", "Lean partition/bounds theorems + differential tie + trace oracle"),
  "C03": ("proof", "§6 C03", "invariant preservation per process (thDry <= th <= thS, ponding bounds); capillary rise only up to its 1/20000 rounding slack (known finding); tie + bounds oracle", "Lean invariant theorems + differential tie + trace oracle"),
  "C04": ("proof", "§6 C04", "sign and actual<=potential theorems per flux; EsPot >= 0 under CC* <= 1 which canopy_cover now guarantees; tie + sign oracle", "Lean sign/ordering theorems + differential tie + trace oracle"),
- "C05": ("proof", "§6 C05", "partial: degree-day range and canopy-curve theorems; canopy/root/harvest-index processes are being modelled (tier 2) — until then decided by the envelope oracle on every crop-growth row plus the tie of the modelled parts", "Lean range theorems (partial) + envelope oracle on traces"),
+ "C05": ("proof", "§6 C05, §13.3", "19 one-day envelope theorems over the models of canopy_cover, root_development, HIref/harvest_index, biomass_accumulation, growing_degree_day (invariants preserved day after day); tie on all of them; envelope oracle on every crop-growth row", "Lean envelope-preservation theorems + differential tie + trace oracle"),
  "C06": ("proof", "§6 C06", "summary theorems from the clock model (one row per harvested season, in order, first end-condition day), seasonal counter = running sum; daily identities checked by oracle and tie", "Lean clock/summary theorems + differential tie + trace oracle"),
  "C07": ("proof", "§6 C07", "13 theorems over the integer clock/season state machine for every oracle (day function) and every reachable state, date set-up proved valid; exact tie incl. exhaustive civil calendar 1900-2500; independent date-arithmetic oracle", "Lean induction over the clock state machine + exact differential tie"),
  "C08": ("proof", "§6 C08", "partial: the two CO2-factor copies agree, reset field coverage; decided mainly by the differential oracle (season k of a multi-season run vs fresh single-season run, bitwise); aliasing is invisible to a functional model", "multi-season vs fresh-run differential + Lean reset/CO2 lemmas"),
  "C09": ("proof", "§6 C09", "runSteps composition, any-partition = one run, overshoot stops (induction, every configuration and oracle); purity of the real stepping code by all-compositions/random-partition differential runs", "Lean induction over run calls + all-partitions differential"),
- "C10": ("other", "§6 C10", "determinism/isolation is runtime behaviour: decided by differential runs across fresh interpreters, hash seeds, orders and interleavings; the functional model is deterministic by construction and claims nothing", "subprocess / order / interleaving differential runs"),
- "C11": ("other", "§6 C11", "decided by run-twice / rebuild-from-same-objects differential runs; idempotence lemmas for the modelled initialisers (schedule re-index, profile deepening) support it", "run-twice differential + idempotence lemmas"),
- "C12": ("other", "§6 C12", "decided by content hashes of every parameter object after every step; the functional model has read-only parameters by construction", "per-step parameter hashing"),
+ "C10": ("proof", "§6 C10, §13.3", "partial: the write-effect table extracted from /repo's current sources has no store into module-level / class-level / mutable-default state (decide), lifted by the frame theorem to 'any sequence of other models leaves what B reads unchanged'; hash randomisation, process boundaries and library internals are runtime behaviour decided by differential runs across fresh interpreters, hash seeds, orders and interleavings", "regenerated effect table + Lean frame theorem; subprocess/order/interleaving differential runs"),
+ "C11": ("proof", "§6 C11, §13.3", "partial: the stores _initialize makes into user objects, extracted from the current sources, equal a reviewed list (decide) — a new store breaks the obligation; irrigation/field/groundwater/initial-content objects are never written; decided on the implementation by run-twice / rebuild-from-the-same-objects differential runs incl. dated schedules, explicit harvest dates, CO2 series, SwitchGDD", "regenerated effect table obligations + run-twice differential"),
+ "C12": ("proof", "§6 C12, §13.3", "the write-effect table extracted from the current sources shows that stepping stores only into state/outputs/clock, the season's crop and CO2 concentration at the season-start reset, and two constants of the fallow filler crop (decide), lifted by the frame theorem to every number of steps; the extractor is validated dynamically (observed writes within extracted ones) and the property is checked on the implementation by content hashes of every parameter object after every step", "regenerated effect table + Lean frame theorem + per-step parameter hashing"),
  "C13": ("proof", "§6 C13", "13 contract theorems per strategy incl. the seasonal-cap invariant over every history of days; tie on irrigation/pre_irrigation/growth_stage/schedule; contract oracle on every day", "Lean contract theorems + differential tie + trace oracle"),
  "C14": ("other", "§6 C14", "decided by perturbation differential runs (future weather, out-of-window weather, extended end date)", "perturbation differential runs"),
  "C15": ("other", "§6 C15", "decided by transformed-table differential runs (column permutations, extra columns, re-index, extra rows)", "transformed-table differential runs"),
